@@ -36,9 +36,9 @@ ASSUMPTIONS = [
     "list sources cannot carry a fault; the baseline then uses the one-shot sync iterator flavour",
 ]
 
-SRC_FL = ["list", "seq", "iter", "agen", "aclass", "aplain", "tuple", "tuplesub", "aeager", "reiter", "areiter", "aproxy"]
+SRC_FL = ["list", "seq", "iter", "agen", "aclass", "aplain", "tuple", "tuplesub", "aeager", "aeagerstop", "reiter", "areiter", "aproxy"]
 FN_FL = ["def", "async", "partial", "obj", "objaw", "falsyobj", "eqobj", "unhashobj", "aeqobj", "gencoro", "classaw"]
-ASYNC_SRC = {"agen", "aclass", "aplain", "aeager", "areiter", "aproxy"}
+ASYNC_SRC = {"agen", "aclass", "aplain", "aeager", "aeagerstop", "areiter", "aproxy"}
 ALL = ITER_TOOLS + AGG_TOOLS
 
 
@@ -71,6 +71,7 @@ def cases(draw, name, tier):
         })
     case["assigns"] = assigns
     case["fault_pick"] = draw(st.one_of(st.none(), st.tuples(st.integers(0, 40), st.sampled_from(EXC_NAMES))))
+    case["stop_fault"] = draw(st.integers(0, 4)) == 0
     # a second planned fault on ANOTHER resource: which of the two is met first must not depend on the flavours
     case["fault_pick2"] = draw(st.one_of(st.none(), st.tuples(st.sampled_from([0, 0, 0, 1, 2, 5, 11, 23]),
                                                                st.sampled_from(EXC_NAMES))))
@@ -82,6 +83,7 @@ def apply_assign(case, assign):
     c.pop("assigns", None)
     c.pop("fault_pick", None)
     c.pop("fault_pick2", None)
+    c.pop("stop_fault", None)
     nsrc = len(c["srcs"])
     for i, s in enumerate(c["srcs"]):
         fl = assign["src"][i]
@@ -140,7 +142,12 @@ def check(case):
         uses = uses_of(apply_assign(case, baseline_assign(case)))
         if uses:
             res, at = uses[case["fault_pick"][0] % len(uses)]
-            work = with_fault(case, res, at, case["fault_pick"][1])
+            exc1 = case["fault_pick"][1]
+            if case.get("stop_fault") and not (res == "outer" or (res.startswith("s") and res[1:].isdigit())):
+                # a CALLABLE fails with StopIteration: whatever the library makes of it (a coroutine frame turns it
+                # into RuntimeError), it makes the same of it for every flavour of that callable
+                exc1 = "StopIteration"
+            work = with_fault(case, res, at, exc1)
             others = [u for u in uses if u[0] != res]
             if case.get("fault_pick2") is not None and others:
                 res2, at2 = others[case["fault_pick2"][0] % len(others)]
